@@ -149,12 +149,26 @@ class Repo:
             with open(path, encoding='utf-8') as fh:
                 src = fh.read()
             try:
-                tree = ast.parse(src, filename=path)
+                try:
+                    tree = ast.parse(src, filename=path, type_comments=True)
+                except SyntaxError:
+                    tree = ast.parse(src, filename=path)
             except SyntaxError as e:
                 raise AnalysisError(f'{path} does not parse: {e}') from e
             from .canon import canonicalise
+            from .nt import canon_namedtuples
+            n_nt = canon_namedtuples(tree)
+            if n_nt:
+                self.canon_counts['K8'] = self.canon_counts.get('K8', 0) + n_nt
             for k, v in canonicalise(tree).items():
                 self.canon_counts[k] = self.canon_counts.get(k, 0) + v
+            from .unhelper import restore_param_names, unhelper
+            n_ren = restore_param_names(tree, name)
+            if n_ren:
+                self.canon_counts['parameters-renamed-back'] = self.canon_counts.get('parameters-renamed-back', 0) + n_ren
+            n_inl = unhelper(tree, name)
+            if n_inl:
+                self.canon_counts['helpers-inlined'] = self.canon_counts.get('helpers-inlined', 0) + n_inl
             self.modules[name] = ModuleInfo(name, path, src, tree, lines=src.splitlines())
         for m in ('_wcparse', '_wcmatch', 'glob', 'fnmatch', 'pathlib', 'posix', 'util', 'wcmatch'):
             if m not in self.modules:
